@@ -41,11 +41,11 @@ prop(
 )
 
 prop(
-    'C03', 'exploration',
-    'Bounded stand-in only: the real SMMapSet.write() output of generated and read mapsets (rated, selectable False, >384-row measures, empty measures, all chart types) is parsed by the independent exact-rational .sm interpreter and compared with the in-memory mapset; header fields read back; re-read stability.',
-    'A5 (.sm denotation); nothing counted as proved',
-    'run-time contract checking of the real writer against an independent format interpreter (bounded stand-in)',
-    "DESIGN.md section 7 C03",
+    'C03', 'other',
+    'The per-measure step of SMMap.write (body of the loop over measures) is verified as a loop-body unit: exactly measure - prev - 1 empty measures of one 0 per column are padded, the measure is written with min(lcm of the denominators, 384) rows, every object lands in its own column at row num * rows / den - exactly its position - and no other cell is set (denominators enumerated, numerators / columns / measure numbers symbolic). Header formatting, the beat computation and whole mapsets: the real writer output is parsed by the independent exact-rational .sm interpreter and compared with the in-memory mapset (rated, selectable False, >384-row measures, empty measures, all chart types, tempo rows in any order); header fields read back; re-read stability (bounded).',
+    'A1 (row arithmetic over the reals: a float-only slip such as num / den * rows is invisible to the unit and is caught by the bounded side), A2 (np.lcm on concrete denominators), A5 (.sm denotation)',
+    'contract-based deductive verification (loop-body unit, z3) + bounded run-time checking of the real writer against an independent format interpreter',
+    "DESIGN.md section 7 C03", uses_frames=True, explanation='loop-body unit proved for the enumerated denominator shapes; the writer as a whole only by the bounded stand-in',
 )
 
 prop(
